@@ -74,6 +74,7 @@ type Ctx struct {
 	n             int
 	strLits       map[string]Term
 	memSort       map[string]string // memory name -> array sort, declared lazily
+	lastArgShape  map[string]*Val   // shape of the recorded arguments of extern interface calls (lastarg)
 	memInit       map[string]Term   // initial array term per memory
 	nextObj       int               // allocation counter (concrete roots >= birthBase)
 	globals       map[*ssa.Global]Term
